@@ -114,7 +114,31 @@ func (e *Engine) reschedule(st *State, why string) {
 	if len(cands) == 0 {
 		// nothing can run: either quiescent (main waiting in Quiesce) or deadlock
 		main := st.Threads[0]
-		if main.Status == TBlocked && main.BlockWhy == "quiesce" {
+		quiescing := main.Status == TBlocked && main.BlockWhy == "quiesce"
+		// threads waiting for a timer that has not fired yet: time may pass now
+		var tw []int
+		if st.TimerFired < MaxTimerFires {
+			for i, th := range st.Threads {
+				if th.Status == TBlocked && th.TimerWait {
+					tw = append(tw, i)
+				}
+			}
+		}
+		if len(tw) > 0 {
+			n := len(tw)
+			if quiescing {
+				n++ // ... or the harness goes on first
+			}
+			if d := e.chooseFree(st, n, "time passes"); d < len(tw) {
+				k := tw[d]
+				st.Threads[k].TimerKick = true
+				st.Threads[k].Status = TRunnable
+				st.Cur = k
+				st.schedHist = append(st.schedHist, k)
+				return
+			}
+		}
+		if quiescing {
 			main.Status = TRunnable
 			main.Quiesced = true
 			st.Cur = 0
@@ -373,6 +397,59 @@ func (e *Engine) execSelect(st *State, th *Thread, fr *Frame, x *ssa.Select) {
 		} else {
 			if len(o.Buf) > 0 || o.Closed || e.timerReady(o) {
 				ready = append(ready, i)
+			}
+		}
+	}
+	th.TimerWait = false
+	if st.LazyTimers && x.Blocking && len(ready) > 0 {
+		onlyTimers := true
+		for _, i := range ready {
+			o := e.obj(st, e.val(st, fr, x.States[i].Chan).(ChanV).Obj)
+			if !(x.States[i].Dir == types.RecvOnly && len(o.Buf) == 0 && !o.Closed && e.timerReady(o)) {
+				onlyTimers = false
+			}
+		}
+		if onlyTimers {
+			// The timer may fire now, or later than everything that is currently enabled: the
+			// thread then waits for another case or for time to pass (reschedule kicks it when
+			// nothing else can run). A kick is consumed at this step (remembered for forks that
+			// execute the instruction again).
+			if th.TimerKick || th.kickStep == st.Steps {
+				th.TimerKick = false
+				th.kickStep = st.Steps
+			} else if e.chooseFree(st, 2, "timer: fires now or later") == 1 {
+				type wc struct {
+					obj  int
+					send bool
+				}
+				var ws []wc
+				for _, s := range x.States {
+					ch := e.val(st, fr, s.Chan).(ChanV)
+					if ch.Obj == 0 {
+						continue
+					}
+					ws = append(ws, wc{ch.Obj, s.Dir == types.SendOnly})
+				}
+				self := th.ID
+				th.TimerWait = true
+				e.block(st, th, "select (timer pending)", func(e *Engine, st *State) bool {
+					if st.Threads[self].TimerKick {
+						return true
+					}
+					for _, w := range ws {
+						if w.send && e.sendReady(st, w.obj, self) {
+							return true
+						}
+						if !w.send {
+							o := e.obj(st, w.obj)
+							if len(o.Buf) > 0 || o.Closed {
+								return true
+							}
+						}
+					}
+					return false
+				})
+				return
 			}
 		}
 	}
